@@ -23,7 +23,8 @@ RULE = ('generated object classes (type()/exec): 1-3 interfaces declared on a ba
         'Non-trivial = the call reaches user code or fails a lookup stage other than the first; distinct = case JSON. In half of the '
         'cases the base class still declares an older edition (same name, first half of the methods) of each interface the '
         'exported class declares: the exported class\'s own declaration is in force. A third of the '
-        'objects reach IDBusObject only through a registered adapter.')
+        'objects reach IDBusObject only through a registered adapter. A quarter of the implementations are coroutines (async def); '
+        'a third of the pending Deferred outcomes see ANOTHER object exported at the path before they fire.')
 ASSUMPTIONS = ['a call without interface may run any implementation bound to that member whose interface signature matches, '
                'or be refused InvalidArgs if some interface declaring the member has another signature',
                'every declared (interface, member) has exactly one binding; members sharing a name across interfaces all '
@@ -275,6 +276,18 @@ def run_case(case):
         pending = {}
 
         def plan(defer, outc=outc, pending=pending):
+            if outc.get('coro') and outc['kind'] in ('value', 'raise', 'deferred', 'deferred-fail'):
+                # the implementation is written as a coroutine function (async def): what it returns or raises is the
+                # outcome all the same, and it may await a Deferred on the way
+                async def body():
+                    r = plan_sync(defer, outc, pending)
+                    if isinstance(r, defer.Deferred):
+                        r = await r
+                    return r
+                return body()
+            return plan_sync(defer, outc, pending)
+
+        def plan_sync(defer, outc, pending):
             k = outc['kind']
             spec_ = pending.get('spec') or {'out': ''}
             if k in ('value', 'deferred', 'deferred-fail', 'wrong-type', 'wrong-arity'):
@@ -325,6 +338,14 @@ def run_case(case):
             if sent_now:
                 out.append(Disc('reply.before-deferred-fired', '%s: %d messages sent while the result is pending' % (
                     where, len(sent_now))))
+            swapped = False
+            if outc.get('reexport') and call['path'] == case['path']:
+                # while the result is pending the application puts ANOTHER object at that path (a reload): the call
+                # was accepted by the first object and still gets its one reply
+                from txdbus import objects as O2
+                h.exportObject(O2.DBusObject(case['path']))
+                conn.sent[:] = []
+                swapped = True
             try:
                 if outc['kind'] == 'deferred':
                     pending['d'].callback(pending['ret'])
@@ -336,6 +357,9 @@ def run_case(case):
                 break
         replies = list(conn.sent)
         conn.sent[:] = []
+        if 'd' in pending and swapped:
+            h.exportObject(obj)         # the original object takes its path back for the calls that follow
+            conn.sent[:] = []
         # ---- judge
         if len(replies) > 1:
             out.append(Disc('reply.more-than-one', '%s: %d replies' % (where, len(replies))))
@@ -471,6 +495,10 @@ def classify(case):
             nt = True
             labels.append('reaches_user_code')
             labels.append('outcome_' + call['outcome']['kind'])
+            if call['outcome'].get('coro'):
+                labels.append('implementation_is_a_coroutine')
+            if call['outcome'].get('reexport'):
+                labels.append('path_re-exported_while_pending')
             if call['no_reply']:
                 labels.append('no_reply')
         elif exported and cands:
@@ -590,6 +618,8 @@ def gen_case(draw, tier):
         outc['trees'] = [draw(S.tree_for(t, 2)) for t in R.split_inner(osig)]
         outc['pres'] = draw(S.presentation)
         outc['as_tuple'] = draw(st.booleans())
+        outc['coro'] = draw(st.integers(0, 3)) == 0
+        outc['reexport'] = kind in ('deferred', 'deferred-fail') and draw(st.integers(0, 2)) == 0
         if kind in ('raise', 'deferred-fail'):
             outc['exc'] = draw(st.sampled_from(['plain', 'plain', 'named', 'badname', 'badname-format', 'nonascii', 'none-name', 'nested', 'local']))
             outc['text'] = draw(st.sampled_from(['plain', 'plain', 'empty', 'unicode', 'nul', 'surrogate', 'format']))
